@@ -475,6 +475,10 @@ fn credit_menu() -> Vec<(&'static str, Vec<Op>)> {
         ("ackinsuf", vec![Op::Ack(0, 1)]),
         ("cancely", vec![Op::Cancel("y")]),
         ("ackall+send8", vec![Op::Ack(0, 4), Op::Send(8)]),
+        // an accepted resume that frees no credit stays staged; a later one frees credit
+        ("resume0", vec![Op::Resume(0, 0, 0)]),
+        ("resume0+resume2", vec![Op::Resume(0, 0, 0), Op::Resume(0, 2, 0)]),
+        ("resume0+ackfit", vec![Op::Resume(0, 0, 0), Op::Ack(0, 2)]),
     ]
 }
 
@@ -488,6 +492,9 @@ fn reconnect_menu() -> Vec<(&'static str, Vec<Op>)> {
         ("ack2", vec![Op::Ack(0, 2)]),
         ("resume2+resume4", vec![Op::Resume(0, 2, 0), Op::Resume(0, 4, 0)]),
         ("cancely", vec![Op::Cancel("y")]),
+        // an ack between two resumes, and a resume after an advance discarded the first
+        ("resume2+ack2+resume4", vec![Op::Resume(0, 2, 0), Op::Ack(0, 2), Op::Resume(0, 4, 0)]),
+        ("advance+resumefile1", vec![Op::Advance(1), Op::Resume(1, 0, 0)]),
     ]
 }
 
